@@ -213,6 +213,9 @@ pub mod source;
 pub mod hot_reloading;
 
 mod utils;
+
+#[cfg(assets_manager_verif)]
+pub mod verif_hooks;
 #[cfg(feature = "utils")]
 #[cfg_attr(docsrs, doc(cfg(feature = "utils")))]
 pub use utils::cell::OnceInitCell;
